@@ -26,6 +26,9 @@ class Facts:
         self.by_name = {}
         for f in self.fns.values():
             self.by_name.setdefault(f["name"], []).append(f)
+        self.by_qname = {}
+        for f in self.fns.values():
+            self.by_qname.setdefault(f.get("qname", f["name"]), []).append(f)
         self.by_parent = {}
         for f in self.fns.values():
             if "parent" in f:
